@@ -114,6 +114,8 @@ def c_shadow(ctx, args):
     # reproduce the povm states to know the measured basis: same seeds, same call order is not guaranteed for random circuits,
     # so the basis is taken from the snapshot itself: its stabilizer strings must span the same space as some back-evolved basis.
     snaps = list(shadow.snapshots(nsample))
+    if len(snaps) != nsample or len({id(x) for x in snaps}) != nsample or any(x is base for x in snaps):
+        return {'kind': 'oracle', 'where': 'np:snapshots(%d) must yield that many distinct fresh states' % nsample, 'observed': len(snaps), 'expected': nsample}
     if S.st_list(base) != before:
         return {'kind': 'oracle', 'where': 'np:snapshots modified the base state', 'observed': S.st_list(base), 'expected': before}
     for sn in snaps:
